@@ -171,6 +171,22 @@ def build(M):
             return None
         return mk([AggV("tuple", {0: a, 1: b}) for a, b in zip(items, other)])
 
+    def a_flatten(eng, st, fr, t, items, args):
+        """`it.flatten()` over Option items (or references to Options): the payloads of the Some items, in order"""
+        out = []
+        for x in items:
+            by_ref = False
+            v = eng.resolve(st, x)
+            if isinstance(v, RefV):
+                by_ref = True
+                v = eng.resolve(st, fdai.load(fdai.Loc(v.cell, v.path)))
+            if not (isinstance(v, fdai.EnumV) and v.name in ("Some", "None") and (v.adt or "").endswith("Option")):
+                return None
+            if v.name == "Some":
+                p_ = v.fields.get(0)
+                out.append(RefV(Cell(p_, "flat-item")) if by_ref else p_)
+        return mk(out)
+
     def a_chain(eng, st, fr, t, items, args):
         other = items_of(eng, st, args[1])
         return None if other is None else mk(items + other)
@@ -520,7 +536,7 @@ def build(M):
 
     I = "core::iter::Iterator::"
     table = {
-        I + "rev": adaptor(a_rev), I + "enumerate": adaptor(a_enumerate), I + "zip": adaptor(a_zip), I + "chain": adaptor(a_chain),
+        I + "rev": adaptor(a_rev), I + "enumerate": adaptor(a_enumerate), I + "zip": adaptor(a_zip), I + "chain": adaptor(a_chain), I + "flatten": adaptor(a_flatten),
         I + "skip": adaptor(a_skip), I + "take": adaptor(a_take), I + "copied": adaptor(a_copied), I + "cloned": adaptor(a_copied),
         I + "peekable_items": adaptor(a_identity), I + "fuse": adaptor(a_identity), I + "by_ref": None,
         I + "map": m_map, I + "map_while": m_map_while, I + "filter": m_filter("filter"), I + "skip_while": m_filter("skip_while"),
